@@ -1550,7 +1550,53 @@ func (c *Ctx) ruleWidthDecode(rule string, in func(*ssa.Function) bool) int {
 					}
 				}
 			}
-			c.R.Check(lb >= need, rule, name(fn), construct, c.IPos(call), "a fixed-width field is decoded only from a slice known to be long enough",
+			what := "a fixed-width field is decoded only from a slice known to be long enough"
+			if lb >= need {
+				c.R.Okf(rule, name(fn), construct, c.IPos(call), what)
+				return
+			}
+			// decided only for a buffer this function sizes from input (make with a computed
+			// length, or everything a reader delivers) and on which no length test dominates
+			inputSized := false
+			switch x := root.(type) {
+			case *ssa.MakeSlice:
+				inputSized = true
+			case *ssa.Call:
+				switch ir.CallID(x) {
+				case "io.ReadAll", "os.ReadFile", "bytes.Buffer.Bytes", "bytes.Buffer.Next":
+					inputSized = true
+				}
+			case *ssa.Extract:
+				if cc, isC := x.Tuple.(*ssa.Call); isC && x.Index == 0 {
+					switch ir.CallID(cc) {
+					case "io.ReadAll", "os.ReadFile":
+						inputSized = true
+					}
+				}
+			}
+			otherTest := false
+			for _, ce := range ir.DominatingConds(fn, call.Block()) {
+				bo, isB := ce.Cond.(*ssa.BinOp)
+				if !isB {
+					continue
+				}
+				for _, side := range []ssa.Value{bo.X, bo.Y} {
+					// the length itself, possibly with constant arithmetic around it
+					for v := range c.sliceOf(side) {
+						if lc, ok := v.(*ssa.Call); ok && ir.CallID(lc) == "builtin.len" && ir.AccessPath(ir.StripConv(lc.Call.Args[0])) == rootPath && rootPath != "" {
+							otherTest = true
+						}
+					}
+					if lenVal != nil && ir.StripConv(side) == lenVal {
+						otherTest = true
+					}
+				}
+			}
+			if !inputSized || otherTest {
+				c.R.Infof(rule, name(fn), construct, c.IPos(call), fmt.Sprintf("not decided for this shape: whether %s holds %d bytes is settled by the callers or by a test the rule does not evaluate", rootPath, need))
+				return
+			}
+			c.R.Violf(rule, name(fn), construct, c.IPos(call), what,
 				fmt.Sprintf("%s reads %d bytes of %s; nothing on the way establishes len >= %d (known: >= %d): a shorter value panics with index out of range", id[strings.LastIndex(id, ".")+1:], w, rootPath, need, lb))
 		})
 	}
